@@ -39,6 +39,9 @@ func fcModel(x, w, b *ref.T) *ref.T {
 }
 
 func checkC16(c *core.Ctx) {
+	defer sweepC16(c)
+	defer soakC16(c)
+	defer gridC16(c)
 	if c.Shard == 0 && c.Only == "" {
 		if f := refSelftest(); f > 0 {
 			c.Broken("reference model selftest failed (%d)", f)
